@@ -1,6 +1,8 @@
 import Proofs.Lemmas.CasAutoTop
-import Proofs.Lemmas.CasFoldLoop
-import Proofs.Lemmas.CasInterp
+import Proofs.Lemmas.CasFoldSound
+import Proofs.Lemmas.CasInterpC
+import Proofs.Lemmas.CasInterpP
+import Proofs.Lemmas.CasNoNp
 import Proofs.Lemmas.CasTerms
 import Proofs.Lemmas.CasFuelMono
 /-!
@@ -89,46 +91,65 @@ theorem termT_termsOf (D : Nat) (s : Stack) : TermT (termsOf D s) := by
   · exact termT_varsBelow D o v h
   · exact Or.inr h.1
 
-/-- `simp_wf`: on power-free stacks (constants allowed) the output of a successful strict run is a
-well-formed stack: non-empty, every operator row references earlier rows only, every variable is one
-of the `D` inputs -/
-theorem simplify_stack_wf {D L : Nat} {s s' : Stack} (hwf : WF.WFEval D L s) (hnp : NoPowRows s)
-    (h : simplifyWith true s = .ok s') : WF.wf D none none s' = true := by
-  obtain ⟨e0, e1, e2, e3, h0, h1, h2, h3, h4⟩ := simplifyWith_ok h
-  have hok0 := buildCas_ok_gen hwf hnp h0
-  have hok3 := (exprPipeline_ok (fun _ => termT_termsOf D s) hok0 h1 h2 h3).2.2
-  refine buildAgraphStack_wf_gen ?_ hok3 h4
-  intro o v hT
-  simp only [termsOf, Bool.or_eq_true, Bool.and_eq_true, beq_iff_eq] at hT
-  rcases hT with hT | hT
-  · exact Or.inl hT
-  · exact Or.inr hT.1
+/-- the Expr-level pipeline WITH constants refines up to a reparametrisation of the constants (which does
+not depend on the data row) -/
+theorem exprPipeline_sound {k : Bool} {T : Int → Int → Bool} (hT : TermT T) {f g : Nat}
+    {e0 e1 e2 e3 : Expr} (hok : Ok k T e0 = true)
+    (h1 : automaticSimplify true f e0 = .ok e1) (h2 : foldConstants g e1 = .ok e2)
+    (h3 : optionalModifications e2 = .ok e3) :
+    ∀ cv : Int → ℝ, ∃ cv' : Int → ℝ, ∀ x, e0.den x cv ⊑ e3.den x cv' :=
+  exprPipeline_sound_of_fold hok h1 h2 h3
+    (foldConstants_sound hT (Auto.automaticSimplify_sound hok h1).1 h2)
 
-/-- the partial (conventional) meaning of a source stack at the data row `x`: the meaning of the
-expression `build_cas_expression` reads off it (`none`: undefined there, e.g. a division by zero).
-For a constant-free stack `cv` is irrelevant. -/
-noncomputable def stackDen (x : List ℝ) (cv : Int → ℝ) (s : Stack) : Option ℝ :=
-  match buildCasExpression s with
-  | .ok e => e.den x cv
-  | .error _ => none
-
-/-- end to end on stacks, constant-free and power-free, strict integer arithmetic -/
-theorem simplify_stack_noconst {D : Nat} {s s' : Stack} (hwf : WF.WFEval D 0 s)
-    (hnp : NoPowRows s) (h : simplifyWith true s = .ok s') :
+/-- **`simp_wf`**: on stacks whose `POWER` rows have INTEGER-literal exponents (constants allowed) the
+output of a successful strict run is a well-formed stack, and after the constant renumbering of
+`AGraph._update` it is an input of the evaluation backend with `numConsts s'` constants -/
+theorem simplify_stack_wf {D L : Nat} {s s' : Stack} (hwf : WF.WFEval D L s) (hnp : PowLitRows s)
+    (h : simplifyWith true s = .ok s') :
     WF.wf D none none s' = true ∧
-    ∀ (x : List ℝ) (cv : Int → ℝ) (v : ℝ), x.length = D → stackDen x cv s = some v →
-      MathSem.den x [] (ETree.ofStack s) = some v ∧
+      WF.WFEval D (Renumber.numConsts s') (Renumber.renumber s') := by
+  obtain ⟨e0, e1, e2, e3, h0, h1, h2, h3, h4⟩ := simplifyWith_ok h
+  have hok0 := buildCas_ok_pow_gen hwf hnp h0
+  have hok3 := (exprPipeline_ok (fun _ => termT_termsOf D s) hok0 h1 h2 h3).2.2
+  exact ⟨buildAgraphStack_wf_gen (termsOf_hTD D s) hok3 h4,
+    buildAgraphStack_wfeval_consts (termsOf_hTD D s) hok3 h4⟩
+
+/-- end to end on stacks WITH constants (strict run): no more constants than before, and for every value
+of the original constants there are values of the new ones such that, at every data row where the source
+stack is conventionally defined (`pden`), the simplified and renumbered stack has the same value -/
+theorem simplify_stack_consts {D L : Nat} {s s' : Stack} (hwf : WF.WFEval D L s)
+    (hnp : PowLitRows s) (h : simplifyWith true s = .ok s') :
+    Renumber.numConsts s' ≤ Renumber.numConsts s ∧
+    ∀ c : List ℝ, c.length = L → ∃ c' : List ℝ, c'.length = Renumber.numConsts s' ∧
+      ∀ (x : List ℝ) (v : ℝ), x.length = D → pden x c (ETree.ofStack s) = some v →
+        MathSem.den x c' (ETree.ofStack (Renumber.renumber s')) = some v := by
+  obtain ⟨e0, e1, e2, e3, h0, h1, h2, h3, h4⟩ := simplifyWith_ok h
+  have hok0 := buildCas_ok_pow_gen hwf hnp h0
+  have hok3 := (exprPipeline_ok (fun _ => termT_termsOf D s) hok0 h1 h2 h3).2.2
+  obtain ⟨ids, hlen, hnd, hmem, hden⟩ := buildAgraphStack_den_consts (termsOf_hTD D s) hok3 h4
+  refine ⟨?_, fun c hc => ?_⟩
+  · rw [← hlen]
+    exact numConsts_simplified_le ids hnd (fun id hid => termsOf_const (hmem id hid).1)
+  · obtain ⟨cv', hcv'⟩ := exprPipeline_sound (termT_termsOf D s) hok0 h1 h2 h3 (cvOf s c)
+    refine ⟨ids.map cv', by rw [List.length_map, hlen], fun x v hx hv => ?_⟩
+    rw [← buildCas_den_eq hwf h0 hx hc] at hv
+    exact hden x cv' v (hcv' x v hv)
+
+/-- end to end on constant-free stacks (strict run): the simplified stack is well formed and, at every
+data row where the source stack is conventionally defined, has the same value (no renumbering needed) -/
+theorem simplify_stack_noconst {D : Nat} {s s' : Stack} (hwf : WF.WFEval D 0 s)
+    (hnp : PowLitRows s) (h : simplifyWith true s = .ok s') :
+    WF.wf D none none s' = true ∧
+    ∀ (x : List ℝ) (v : ℝ), x.length = D → pden x [] (ETree.ofStack s) = some v →
       MathSem.den x [] (ETree.ofStack s') = some v := by
   obtain ⟨e0, e1, e2, e3, h0, h1, h2, h3, h4⟩ := simplifyWith_ok h
   obtain ⟨m, hm⟩ := fuelFor_pos s.length
   rw [hm] at h2
-  have hok0 := buildCas_ok hwf hnp h0
+  have hok0 := buildCas_ok_pow hwf hnp h0
   obtain ⟨hok3, _, hd⟩ := exprPipeline_noconst (noConstT_varsBelow D) hok0 h1 h2 h3
-  refine ⟨buildAgraphStack_wf hok3 h4, fun x cv v hx hv => ?_⟩
-  unfold stackDen at hv
-  rw [h0] at hv
-  exact ⟨buildCas_den_noconst hwf h0 hx hv,
-    buildAgraphStack_den_noconst hok3 h4 hx (hd x cv v hv)⟩
+  refine ⟨buildAgraphStack_wf hok3 h4, fun x v hx hv => ?_⟩
+  rw [← buildCas_den_eq_noconst (cv := fun _ => 0) hwf h0] at hv
+  exact buildAgraphStack_den_noconst hok3 h4 hx (hd x _ v hv)
 
 end Cas
 end Bingo
